@@ -104,6 +104,9 @@ class ObjCBackend(ObjCBaseBackend):
             for data_type in namespace.linearize_data_types():
                 self.obj_name_to_namespace[data_type.name] = fmt_class_prefix(
                     data_type)
+                # for doc references that name the namespace ('ns.Type.field')
+                self.obj_name_to_namespace['{}.{}'.format(
+                    namespace.name, data_type.name)] = fmt_class_prefix(data_type)
 
         for namespace in api.namespaces.values():
             if namespace.routes and self.namespace_to_has_routes[namespace]:
@@ -599,7 +602,7 @@ class ObjCBackend(ObjCBaseBackend):
             return '`{}`'.format(fmt_func(val))
         elif tag == 'field':
             if '.' in val:
-                cls_name, field = val.split('.')
+                cls_name, field = val.rsplit('.', 1)
                 return ('`{}` in `{}`'.format(
                     fmt_var(field), self.obj_name_to_namespace[cls_name]))
             else:
